@@ -11,7 +11,7 @@ sys.setrecursionlimit(20000)
 from pyvc import native
 
 violations, counts = [], {}
-native.install(violations, counts)
+native.install(violations, counts, prefixes=("asn1:",))
 import sansldap.asn1 as a
 from sansldap.asn1 import ASN1Reader, ASN1Writer, ASN1Tag, TagClass, TypeTagNumber, NotEnougData
 
